@@ -92,8 +92,10 @@ def specs(tier):
                 if mode == "optimizer" and shape != "comb":
                     continue  # optimizer picks its own tree
                 out.append(((name, shape, mode), 2, "full"))
-    for s in quick:
+    for s in quick[:11]:
         out.append((s, 3, "full"))
+    for s in quick[11:]:
+        out.append((s, 3, "core"))
     for s in deep[:6]:
         out.append((s, 4, "mini"))
     for s in noninitial:
